@@ -107,6 +107,40 @@ def _check_zone(ctx, sub, V, path, z, rnd, label, per_zone, syn=None):
                       weight=abs(t))
             else:
                 sub.cls("history-dependent mismatch (C13)")
+    # the offset in force as printed by %Z, and the printed text read back (offset suffix) to the instant;
+    # %Z has a resolution of 15 minutes, other offsets (local mean times) are not asked
+    zs = [t for t in rnd.sample(ts, min(len(ts), 40)) if z.offset_at(t) % 900 == 0 and abs(z.offset_at(t)) <= 14 * 3600]
+    if zs:
+        def ztxt(t):
+            off = z.offset_at(t)
+            return "%s%s%02d:%02d" % (fmt_t(t + off), "-" if off < 0 else "+", abs(off) // 3600, abs(off) % 3600 // 60)
+        try:
+            zo, _ = run_lines(ctx.build, "dconv", ["--zone", path, "-f", "%FT%T%Z"], [fmt_t(t) for t in zs], timeout=10)
+            zb, _ = run_lines(ctx.build, "dconv", ["-f", "%FT%T"], [ztxt(t) for t in zs], timeout=10)
+            zc, _ = run_lines(ctx.build, "dconv", ["-i", "%FT%T%Z", "-f", "%FT%T"], [ztxt(t) for t in zs], timeout=10)
+            # the same instants arriving as local times of a zone west of Greenwich (constant -5h)
+            zw, _ = run_lines(ctx.build, "dconv", ["--from-zone", "Etc/GMT+5", "--zone", path, "-f", "%FT%T%Z"],
+                              [fmt_t(t - 18000) for t in zs], timeout=10)
+            for t, o in zip(zs, zw):
+                sub.evaluations += 1
+                if o != ztxt(t):
+                    V.add("%s:%%Z:two-zones" % label, {"zone": path, "t": t, "in": fmt_t(t - 18000), "exp": ztxt(t),
+                                                       "kind": "zprint2", "syn": syn}, expected=ztxt(t), actual=o)
+        except BatchError as e:
+            V.add("batch:%Z:" + label, {"zone": path, "kind": "batch"}, detail=str(e), actual=e.result.brief())
+            zo = zb = zc = []
+        for t, o, b, c in zip(zs, zo, zb, zc):
+            sub.evaluations += 1
+            off = z.offset_at(t)
+            if abs(off) >= 12 * 3600 or off % 3600:
+                sub.nt((path, "%Z", t))
+            cls = "%s:%%Z:%s" % (label, "far" if abs(off) > 12 * 3600 else "part" if off % 3600 else "whole")
+            if o != ztxt(t):
+                V.add(cls + ":print", {"zone": path, "t": t, "in": fmt_t(t), "exp": ztxt(t), "kind": "zprint", "syn": syn},
+                      expected=ztxt(t), actual=o)
+            if b != fmt_t(t) or c != fmt_t(t):
+                V.add(cls + ":read", {"zone": path, "t": t, "in": ztxt(t), "exp": fmt_t(t), "kind": "zread", "syn": syn},
+                      expected=fmt_t(t), actual=[b, c])
     # zone -> UTC
     loc = []
     for t in rnd.sample(ts, min(len(ts), 60)):
@@ -260,6 +294,16 @@ def _replay(ctx, k, case):
         r = run_args(ctx.build, "dconv", ["--from-zone", case["zone"], "-f", "%FT%T", case["in"]])
         got = (r.lines() or [""])[0]
         return None if got in [fmt_t(u) for u in case["pre"]] else {"expected": [fmt_t(u) for u in case["pre"]], "actual": got}
+    if k == "zprint":
+        o, _ = run_lines(ctx.build, "dconv", ["--zone", case["zone"], "-f", "%FT%T%Z"], [case["in"]])
+        return None if o[0] == case["exp"] else {"expected": case["exp"], "actual": o[0]}
+    if k == "zprint2":
+        o, _ = run_lines(ctx.build, "dconv", ["--from-zone", "Etc/GMT+5", "--zone", case["zone"], "-f", "%FT%T%Z"], [case["in"]])
+        return None if o[0] == case["exp"] else {"expected": case["exp"], "actual": o[0]}
+    if k == "zread":
+        b, _ = run_lines(ctx.build, "dconv", ["-f", "%FT%T"], [case["in"]])
+        c, _ = run_lines(ctx.build, "dconv", ["-i", "%FT%T%Z", "-f", "%FT%T"], [case["in"]])
+        return None if b[0] == c[0] == case["exp"] else {"in": case["in"], "expected": case["exp"], "actual": [b[0], c[0]]}
     if k == "dzone":
         r = run_args(ctx.build, "dzone", [case["zone"], fmt_t(case["t"]), case["opt"]])
         line = (r.lines() or [""])[0]
